@@ -72,6 +72,11 @@ pub(crate) fn nb_tied<M: serde::Serialize>(model: &M, gaussian: bool, row: &[f64
         Some(m) => m,
         None => return false,
     };
+    // a NaN likelihood (0 * -inf with alpha = 0, zero variance with var_smoothing = 0) makes the arg-max itself
+    // depend on the order in which the classes are visited: no answer is "the" answer for such a row
+    if mirror.class_info.values().any(|i| nb_jll(i, gaussian, row).map(|v| v.is_nan()).unwrap_or(false)) {
+        return true;
+    }
     let (ja, jb) = match (mirror.class_info.get(&a), mirror.class_info.get(&b)) {
         (Some(x), Some(y)) => (nb_jll(x, gaussian, row), nb_jll(y, gaussian, row)),
         _ => return false,
